@@ -49,6 +49,7 @@ let event_of tok =
 let () =
   iter_lines (fun l ->
     match split_ws l with
+    | id :: _ :: _ :: "x" :: _ -> Printf.printf "%s UNJUDGED\n" id  (* ExtendedCopy: oracle only *)
     | id :: sn :: sk :: smode :: sroot :: sc0 :: snodes :: sd0 :: strace :: _ ->
       (try
         if int_of_string sroot < 0 then begin
